@@ -267,11 +267,38 @@ func (m *c09Model) reap() {
 
 type c09Op struct {
 	Kind  string `json:"op"`
-	Img   int    `json:"image,omitempty"` // crash: ordinal of the image taken (1-based)
-	Label string `json:"label,omitempty"` // crash: the crash point that produced the image
+	Img   int    `json:"image,omitempty"`        // crash: ordinal of the image taken (1-based)
+	Label string `json:"label,omitempty"`        // crash: the crash point that produced the image
+	Var   int    `json:"torn_variant,omitempty"` // crash inside the call that led to the image: ordinal of the derived torn state (1-based)
+	Torn  string `json:"torn,omitempty"`
+}
+
+// c09TornOpts: torn states of single-file writes and of multi-entry removals.
+var c09TornOpts = vfs.TornOptions{Overlay: true, Removals: true}
+
+// c09Pick returns the image (or derived torn image) a crash operation names.
+func c09Pick(rec *vfs.Recorder, imgs []vfs.Image, op c09Op) (vfs.Image, error) {
+	if op.Img < 1 || op.Img > len(imgs) || imgs[op.Img-1].Label != op.Label {
+		return vfs.Image{}, fmt.Errorf("image %d is not at %s (%d images)", op.Img, op.Label, len(imgs))
+	}
+	im := imgs[op.Img-1]
+	if op.Var == 0 {
+		return im, nil
+	}
+	vars, _, err := rec.TornVariants(im, c09TornOpts)
+	if err != nil {
+		return vfs.Image{}, err
+	}
+	if op.Var > len(vars) {
+		return vfs.Image{}, fmt.Errorf("image %d has %d torn variants, want %d", op.Img, len(vars), op.Var)
+	}
+	return vars[op.Var-1], nil
 }
 
 func (o c09Op) String() string {
+	if o.Var > 0 {
+		return fmt.Sprintf("%s@inside-the-call-before-%d(%s)[%s]", o.Kind, o.Img, o.Label, o.Torn)
+	}
 	if o.Img > 0 {
 		return fmt.Sprintf("%s@%d(%s)", o.Kind, o.Img, o.Label)
 	}
@@ -313,6 +340,7 @@ type c09Env struct {
 	mu          sync.Mutex
 	labelCounts map[string]int
 	crashImgs   int
+	tornImgs    int
 	outcomes    map[string]int
 	refusals    map[string]int
 	restores    int
@@ -811,17 +839,18 @@ func (e *c09Env) materialise(ops []c09Op) *c09Live {
 		}
 		// crash operation in a prefix: record again, take the same image
 		pre := l.m.clone()
-		imgs, _ := l.record(strings.TrimPrefix(op.Kind, "crash:"))
+		imgs, rec := l.record(strings.TrimPrefix(op.Kind, "crash:"))
 		if l.fault {
 			return l
 		}
-		if op.Img > len(imgs) || imgs[op.Img-1].Label != op.Label {
-			e.t.Errorf("c09: replay of [%s]: image %d is not at %s (images %d)", c09OpsString(ops), op.Img, op.Label, len(imgs))
+		im, err := c09Pick(rec, imgs, op)
+		if err != nil {
+			e.t.Errorf("c09: replay of [%s]: %v", c09OpsString(ops), err)
 			l.fault = true
 			return l
 		}
 		l.ops = l.ops[:len(l.ops)-1] // the completed operation is replaced by its crash variant
-		if !l.crashInto(imgs[op.Img-1], pre, op) {
+		if !l.crashInto(im, pre, op) {
 			return l
 		}
 	}
@@ -930,7 +959,7 @@ func TestVerif_C09(t *testing.T) {
 		fmt.Sscanf(v, "%d", &maxDepth)
 	}
 	alphabet := c09Alphabet(th)
-	r.Rule(fmt.Sprintf("breadth-first search over operation lists of length <= %d on the real snapshot.Store (each list replayed on a fresh directory; the Store object lives across the operations and is re-created only by reopen/crash), alphabet {%s} plus, for full, full+wal, inc1, inc2, one 'crash' successor per distinct directory image the crash recorder takes between Create and the end of Close (sink.go, sink_full.go, staging.go, store.go, sidecar.go, fsutil.go instrumented), followed by a restart; states merged on the key (kind and WAL count of every snapshot oldest to newest, full-needed flag, number of Create calls so far, leftover tmp directories); a Go catalog model is stepped alongside and the state oracle (ListAll/List/Len/LatestIndexTerm, kinds, ResolveFiles, Open+Restore content of EVERY listed snapshot, flag file, DueNext, directory entries) is evaluated after every transition. evaluations = transitions executed and checked; states = distinct keys; distinct = (operation, normalised outcome)", maxDepth, strings.Join(alphabet, ", ")))
+	r.Rule(fmt.Sprintf("breadth-first search over operation lists of length <= %d on the real snapshot.Store (each list replayed on a fresh directory; the Store object lives across the operations and is re-created only by reopen/crash), alphabet {%s} plus, for full, full+wal, inc1, inc2, one 'crash' successor per distinct directory image the crash recorder takes between Create and the end of Close and per torn state of a single-file write or multi-entry removal between two images (engine/vfs TornVariants; quick: for the first two operations of a list, thorough: everywhere) (sink.go, sink_full.go, staging.go, store.go, sidecar.go, fsutil.go instrumented), followed by a restart; states merged on the key (kind and WAL count of every snapshot oldest to newest, full-needed flag, number of Create calls so far, leftover tmp directories); a Go catalog model is stepped alongside and the state oracle (ListAll/List/Len/LatestIndexTerm, kinds, ResolveFiles, Open+Restore content of EVERY listed snapshot, flag file, DueNext, directory entries) is evaluated after every transition. evaluations = transitions executed and checked; states = distinct keys; distinct = (operation, normalised outcome)", maxDepth, strings.Join(alphabet, ", ")))
 	r.Note("Why the key is sufficient: the store keeps no persistent state other than the snapshot directories, the FULL_NEEDED file, REAP_PLAN (absent between operations: checked) and *.tmp directories (counted in the key); its only in-memory state that outlives an operation is the verify-once verdict, which is 'verified' or 'not yet' and always passes here because no file is corrupted. Index and term of the next snapshot depend only on the number of Create calls (in the key). Content differs between merged histories (data positions), which the store does not interpret; each snapshot's content is still checked on every path before merging. Staged WAL directories are created by the incremental operations themselves and never survive an operation (moved into the snapshot, or removed by the harness as the node does), so the staged-WAL count of the state is always 0 and is not part of the key.")
 	r.Assume("Sink.fatalFn / Store.fatalFn are nil (the seam of the package's tests): the production reaction 'exit the process' to a failed incremental Close is observed as the returned error; automatic reaping is disabled (reapDisabled) so that reaping happens only as the explicit operation")
 	r.Assume("the store does not interpret database content: histories that differ only in which generator state a snapshot carries are merged")
@@ -993,7 +1022,7 @@ func TestVerif_C09(t *testing.T) {
 					add := func(l *c09Live, sub int) {
 						k := l.m.key()
 						nmu.Lock()
-						next = append(next, succ{node: c09Node{ops: append([]c09Op(nil), l.ops...), m: l.m.clone()}, key: k, ord: (j.ni*64+j.oi)*256 + sub})
+						next = append(next, succ{node: c09Node{ops: append([]c09Op(nil), l.ops...), m: l.m.clone()}, key: k, ord: (j.ni*64+j.oi)*4096 + sub})
 						nmu.Unlock()
 					}
 					r.Guard("C09:panic:"+j.op, map[string]any{"ops": append(append([]c09Op(nil), j.node.ops...), c09Op{Kind: j.op})}, func() {
@@ -1040,20 +1069,50 @@ func TestVerif_C09(t *testing.T) {
 							add(l, 0)
 						}
 						post := l.m.clone()
-						for i, im := range imgs {
+						crashSucc := func(im vfs.Image, cop c09Op, sub int) {
 							cl := &c09Live{e: e, root: e.newRoot(), m: post.clone(), ops: append([]c09Op(nil), preOps...), countOutcome: true}
-							cop := c09Op{Kind: "crash:" + j.op, Img: i + 1, Label: im.Label}
 							r.Eval(1)
 							r.Transition(1)
 							e.mu.Lock()
-							e.crashImgs++
+							if cop.Var > 0 {
+								e.tornImgs++
+							} else {
+								e.crashImgs++
+							}
 							e.mu.Unlock()
-							if cl.crashInto(im, pre, cop) && cl.check("crash:"+j.op) {
-								r.Distinct(fmt.Sprintf("crash:%s at %s -> %d listed, full-needed %v", j.op, im.Label, len(cl.m.Cat), cl.m.FullNeeded))
-								add(cl, i+1)
+							opName := "crash:" + j.op
+							if cop.Var > 0 {
+								opName += ":torn-call"
+							}
+							if cl.crashInto(im, pre, cop) && cl.check(opName) {
+								what := "at " + im.Label
+								if cop.Var > 0 {
+									what = "inside a call (" + c09TornClass(im.Torn) + ")"
+								}
+								r.Distinct(fmt.Sprintf("crash:%s %s -> %d listed, full-needed %v", j.op, what, len(cl.m.Cat), cl.m.FullNeeded))
+								add(cl, sub)
 							}
 							cl.close()
 							os.RemoveAll(cl.root)
+						}
+						for i, im := range imgs {
+							crashSucc(im, c09Op{Kind: "crash:" + j.op, Img: i + 1, Label: im.Label}, (i+1)*16)
+							if !th && len(preOps) >= 2 {
+								continue // quick tier: torn calls only for the first two operations of a list
+							}
+							vars, _, err := rec.TornVariants(im, c09TornOpts)
+							if err != nil {
+								t.Errorf("c09: deriving torn variants: %v", err)
+								continue
+							}
+							seenVar := map[string]bool{}
+							for v, tv := range vars {
+								if seenVar[tv.Hash] || v >= 14 {
+									continue
+								}
+								seenVar[tv.Hash] = true
+								crashSucc(tv, c09Op{Kind: "crash:" + j.op, Img: i + 1, Label: im.Label, Var: v + 1, Torn: c09IDRe.ReplaceAllString(tv.Torn, "<snap>")}, (i+1)*16+v+1)
+							}
 						}
 					})
 				}
@@ -1102,6 +1161,7 @@ func TestVerif_C09(t *testing.T) {
 	}
 	r.Set("max_depth_completed", completed)
 	r.Set("crash_images_recovered", e.crashImgs)
+	r.Set("torn_call_images_recovered", e.tornImgs)
 	r.Set("restores_executed", e.restores)
 	var labels []string
 	for l, n := range e.labelCounts {
@@ -1121,6 +1181,24 @@ func TestVerif_C09(t *testing.T) {
 		r.Note("operation %q returned an error without cause %d times (not a violation of the statement; the failed creation was checked to be unlisted and to leave the flag alone)", k, n)
 	}
 	r.Set("operations_refused_without_cause", nref)
+}
+
+var c09IDRe = regexp.MustCompile(`[0-9]+-[0-9]+-[0-9]{10,}|[0-9]{20,}-[0-9]+`)
+
+// c09TornClass: kind of torn call and the file's base name (IDs and timestamps removed).
+func c09TornClass(desc string) string {
+	if strings.HasPrefix(desc, "removal") {
+		return "torn-removal"
+	}
+	f := desc
+	if i := strings.Index(f, " "); i > 0 {
+		f = f[:i]
+	}
+	kind := "torn-write"
+	if strings.Contains(desc, "in place") {
+		kind = "torn-overwrite"
+	}
+	return kind + "(" + c09IDRe.ReplaceAllString(filepath.Base(f), "<id>") + ")"
 }
 
 var c09NumRe = regexp.MustCompile(`(/[^ :]+)|"[^"]*"|(0x)?[0-9a-f]*[0-9][0-9a-f]*`)
@@ -1150,10 +1228,10 @@ func c09Replay(e *c09Env, ops []c09Op) {
 		} else {
 			pre := l.m.clone()
 			kind := strings.TrimPrefix(op.Kind, "crash:")
-			imgs, _ := l.record(kind)
-			if !l.fault && op.Img <= len(imgs) {
+			imgs, rec := l.record(kind)
+			if im, err := c09Pick(rec, imgs, op); !l.fault && err == nil {
 				l.ops = l.ops[:len(l.ops)-1]
-				if l.crashInto(imgs[op.Img-1], pre, op) {
+				if l.crashInto(im, pre, op) {
 					l.check(op.Kind)
 				}
 			}
